@@ -7,24 +7,36 @@ PROP = "C11"
 def make_cases(rng, tier, n):
     cases, stats = [], {}
     for i in range(n):
-        pipe = rng.random() < 0.3
+        pipe = rng.random() < 0.3 or i % 10 == 4
         if pipe:
-            c = gen.pipeline_project(rng, "pf-%d" % i, rng.choice([2, 3]), tier=tier, sink=rng.random() < 0.5)
+            c = gen.pipeline_project(rng, "pf-%d" % i, rng.choice([2, 3]), tier=tier, sink=(rng.random() < 0.5 or i % 10 == 4))
             ops = [("run", False, []), ("commit", rng.choice("lc"), [])]
             names = [sp for sp, st in c["stages"]]
         else:
             c = gen.basic_project(rng, "pf-%d" % i, tier, stats=stats, allow_inputs=False, wide=(i % 12 == 5))
+            # identical bytes in an artifact that is never cached (skip-cache) and in a file nested in a directory output
+            skips = [p for p, fl, sp in s1eval.artifacts(c) if fl == "s"]
+            nested = [k for k, e in enumerate(c["init"]) if e[0] == "file" and any(e[1].startswith(p + b"/") for p, fl, sp in s1eval.artifacts(c) if fl == "d")]
+            if skips and nested and rng.random() < 0.5:
+                spec = [e for e in c["init"] if e[1] == skips[0]][0][2]
+                k = rng.choice(nested)
+                c["init"][k] = ("file", c["init"][k][1], spec)
+                stats["skip_twin"] = stats.get("skip_twin", 0) + 1
             ops = [("commit", rng.choice("lc"), [])]
             names = [sp for sp, st in c["stages"]]
         keep = [b"workdir", b"workdir/inner"] if c.get("cwd") else []
         flow = rng.choice(["wipe", "wipe", "partial", "push_missing", "prepresent", "single"])
+        if i % 10 == 4:
+            flow = "single"          # every tenth case: a pipeline pushed / fetched through one named stage
         tg = []
         single = False
         if flow == "single" and len(names) > 1:
             tg = [rng.choice(names)]
-            if pipe and c["kinds"][-1] == "sink" and rng.random() < 0.7:
-                tg = [names[-1]]          # only the leaf that has nothing to cache itself is named: everything upstream is in scope
             single = rng.random() < 0.5
+            if pipe and c["kinds"][-1] == "sink" and (rng.random() < 0.7 or i % 10 == 4):
+                tg = [names[-1]]          # only the leaf that has nothing to cache itself is named: everything upstream is in scope
+                if i % 10 == 4:
+                    single = False
         if flow == "push_missing":
             ops += [("rmobj", rng.randrange(100)), ("push", False, [])]
         else:
